@@ -130,8 +130,10 @@ def uf(name, *args):
 def s_uf(ex, args, kwargs, st, node):
     nm = z3.simplify(ex.as_val(args[0], st, node).e).as_string()
     vals = [ex.as_val(a, st, node).any() for a in args[1:]]
-    f = z3.Function(nm, *([Any] * len(vals)), Any)
     from .sym import from_any
+    if not vals:
+        return from_any(z3.Const(nm, Any))
+    f = z3.Function(nm, *([Any] * len(vals)), Any)
     return from_any(f(*vals))
 
 
